@@ -739,6 +739,11 @@ func (x *Exec) evalQuant(env *Env, q *CQuant) *Value {
 
 func (x *Exec) evalCall(env *Env, c *CCall) *Value {
 	arg := func(i int) *Value { return x.eval(env, c.Args[i]) }
+	if c.Fn == "fn" && len(c.Args) == 1 {
+		if _, ok := c.Args[0].(*CLit); !ok {
+			x.limit("fn() takes a string literal")
+		}
+	}
 	switch c.Fn {
 	case "old":
 		n := *env
@@ -818,6 +823,35 @@ func (x *Exec) evalCall(env *Env, c *CCall) *Value {
 			t = b.Typ
 		}
 		return &Value{T: app("ite", x.term(cnd), x.termAs(a, t), x.termAs(b, t)), Typ: t, Sort: a.Sort}
+	case "invs":
+		// conjunction of the object invariants (and history constraints w.r.t. the
+		// function entry) that apply to the value's type
+		a := arg(0)
+		var cs []string
+		var skip map[string]bool
+		if fc := x.fc; fc != nil {
+			skip = fc.NoInv
+		}
+		for _, inv := range x.C.Invs {
+			if skip[inv.Name] || skip["*"] {
+				continue
+			}
+			if a.Typ != nil && x.typeMatches(a.Typ, inv.Type) {
+				if inv.History && !x.isEntryParam(a) {
+					continue
+				}
+				cs = append(cs, x.evalBool(env.with(inv.Binder, a), inv.Expr))
+			}
+		}
+		return boolV(and(cs...))
+	case "fn":
+		// identity of a function of the verified packages, for comparison with function values
+		name := c.Args[0].(*CLit).Val
+		f := x.P.Lookup(name)
+		if f == nil {
+			x.limit("fn(%q): no such function", name)
+		}
+		return &Value{T: fmt.Sprint(x.fnID(f)), Sort: "Int"}
 	case "isnew":
 		// the object / backing array / map was allocated during this call
 		a := arg(0)
